@@ -193,7 +193,12 @@ def handleMesh (inp : Input) : Option String := do
   | .tris ts =>
     let c := coordFn inp.pts
     match certLine c inp.pts.length true inp.lens ts with
-    | some b => some b
+    | some b =>
+      -- classification for the known finding: everything holds except that some triangles have
+      -- zero area (exactly colinear boundary vertices)
+      if edgesOkG false c inp.pts.length true (loopEdges inp.lens) ts && (ts.length : Int) = cnt then
+        some s!"bad:zero-area-triangles={(ts.filter fun t => triOrient c t == 0).length}"
+      else some b
     | none => if (ts.length : Int) = cnt then some okLine else some s!"bad:count={ts.length}"
 
 def showTris (ts : List Tri) : String :=
@@ -266,6 +271,17 @@ def handleFace : List String → Option String
 
 /-! ### ProfileMesh -/
 
+/-- rotate a triangle so that its smallest id comes first (orientation preserved) -/
+def canonTri (t : Tri) : Tri :=
+  if t.1 ≤ t.2.1 ∧ t.1 ≤ t.2.2 then t
+  else if t.2.1 ≤ t.1 ∧ t.2.1 ≤ t.2.2 then (t.2.1, t.2.2, t.1)
+  else (t.2.2, t.1, t.2.1)
+
+def triLt (a b : Tri) : Bool :=
+  a.1 < b.1 || (a.1 == b.1 && (a.2.1 < b.2.1 || (a.2.1 == b.2.1 && a.2.2 < b.2.2)))
+
+def canonSoup (ts : List Tri) : List Tri := sortBy triLt (ts.map canonTri)
+
 def handleProfile (inp : Input) : Option String :=
   match inp.rest with
   | "Z" :: z0 :: z1 :: rest => do
@@ -283,7 +299,13 @@ def handleProfile (inp : Input) : Option String :=
       | .panic => some okLine
       | .foreign => some "bad:foreign-vertex"
       | .tris ts =>
-        if !closedManifold ts then some "bad:not-closed-manifold"
+        -- the caps (bottom triangles) and the model of ProfileMesh built from them
+        let caps : List Tri := (ts.filter fun t => t.1 % 2 == 0 && t.2.1 % 2 == 0 && t.2.2 % 2 == 0).map
+          fun t => (t.1 / 2, t.2.1 / 2, t.2.2 / 2)
+        if canonSoup (profileSoup caps) != canonSoup ts then some "bad:soup-differs-from-profileSoup-model"
+        else if !edgesOkG false (coordFn inp.pts) inp.pts.length true (loopEdges inp.lens) caps then
+          some "bad:caps-not-glued-to-boundary"
+        else if !closedManifold ts then some "bad:not-closed-manifold"
         else
           let v6 := vol6 (lift (coordFn inp.pts) q0 q1) ts
           if v6 / 6 != a2 / 2 * (q1 - q0) then some s!"bad:volume={showRat (v6 / 6)}"
